@@ -52,6 +52,10 @@ def setCfg (c : MvccCfg) (kv : String) : Option MvccCfg :=
     | "oracle.checksConflict" => do let b ← boolOfString? v; pure { c with checksConflict := b }
     | "oracle.skipOp" => do let o ← CmpOp.ofString? v; pure { c with skipOp := o }
     | "oracle.intentOp" => do let o ← CmpOp.ofString? v; pure { c with intentOp := o }
+    | "oracle.intentFinal" => do let b ← boolOfString? v; pure { c with intentFinal := b }
+    | "oracle.intentDelGuard" => do let b ← boolOfString? v; pure { c with intentDelGuard := b }
+    | "txnit.trackAll" => do let b ← boolOfString? v; pure { c with scanTrackAll := b }
+    | "oracle.seedOp" => do let o ← CmpOp.ofString? v; pure { c with seedOp := o }
     | "oracle.recordsCommit" => do let b ← boolOfString? v; pure { c with recordsCommit := b }
     | "oracle.pruneOp" => do let o ← CmpOp.ofString? v; pure { c with pruneOp := o }
     | "txn.countOp" => do let o ← CmpOp.ofString? v; pure { c with countOp := o }
@@ -83,7 +87,9 @@ def outStr : Out → String
   | .discarded => "discarded"
   | .closed => "closed"
   | .notxn => "notxn"
+  | .iofail => "iofail"
   | .vers l => versStr l
+  | .scanned l => "scan:" ++ (if l.isEmpty then "-" else ",".intercalate (l.map (fun p => s!"{p.1.toHex}={p.2.toHex}")))
 
 def sGet (sp : Spec) (id : Nat) : Option STxn :=
   match sp.txns.find? (fun p => p.1 = id) with
@@ -99,6 +105,43 @@ def mapGet (m : List (Key × Option Val)) (k : Key) : Option Val :=
 
 def mapSet (m : List (Key × Option Val)) (k : Key) (v : Option Val) : List (Key × Option Val) :=
   (k, v) :: m.filter (fun p => p.1 ≠ k)
+
+def insPair (p : Key × Val) : List (Key × Val) → List (Key × Val)
+  | [] => [p]
+  | x :: xs => if Bytes.lt p.1 x.1 then p :: x :: xs else x :: insPair p xs
+
+/-- the specification of `Commit` / `CommitWith` (`io`: the harness injected a write-path fault,
+so `ok` is not an allowed answer) -/
+def specCommit (prop : String) (sp : Spec) (id : Nat) (mout : Out) (mts : Nat) (io : Bool) : Spec × String :=
+    match sGet sp id with
+    | none => (sp, "notxn")
+    | some t =>
+      if t.done then (sp, "discarded")
+      else
+        let spDone := sPut sp id { t with done := true }
+        if t.writes.isEmpty then (spDone, "ok")
+        else if prop != "C04" &&
+            sp.history.any (fun h => decide (h.1 ≥ t.beginIdx) && h.2.any (fun k => t.readKeys.contains k)) then
+          -- C03: a later commit wrote a key this transaction read from its snapshot
+          -- (C04 runs do not judge conflict detection: only atomicity and versions)
+          (spDone, "conflict")
+        else
+          let errs := if sp.closed then "conflict|toobig|blocked" else if io then "conflict|toobig|iofail" else "conflict|toobig"
+          if mout = .ok then
+            if sp.closed || io then (spDone, errs)
+            else if mts ≤ sp.maxTs then (spDone, errs ++ s!"|commit-version-must-be>{sp.maxTs}")
+            else
+              let keys := t.writes.map (·.1)
+              let sp' := { spDone with
+                cur := t.writes.foldr (fun p acc => mapSet acc p.1 p.2) sp.cur
+                history := (sp.ncommits, keys) :: sp.history
+                ncommits := sp.ncommits + 1
+                vlog := t.writes.filterMap (fun p => match p.2 with
+                                                     | some v => some (p.1, mts, v)
+                                                     | none => none) ++ sp.vlog
+                lastV := mts, maxTs := mts }
+              (sp', errs ++ "|ok")
+          else (spDone, if io then errs else errs ++ "|ok")
 
 /-- the specification's step: given the op and the model's answer, the allowed answers -/
 def specStep (prop : String) (sp : Spec) (op : Op) (mout : Out) (mts : Nat) : Spec × String :=
@@ -131,36 +174,26 @@ def specStep (prop : String) (sp : Spec) (op : Op) (mout : Out) (mts : Nat) : Sp
       else
         let sp' := if mout = .ok then sPut sp id { t with writes := mapSet t.writes k v } else sp
         (sp', "ok|toobig")
-  | .commit id =>
+  | .commitIO id => specCommit prop sp id mout mts true
+  | .commit id => specCommit prop sp id mout mts false
+  | .scan id =>
     match sGet sp id with
     | none => (sp, "notxn")
     | some t =>
       if t.done then (sp, "discarded")
+      else if sp.closed then (sp, "closed")
       else
-        let spDone := sPut sp id { t with done := true }
-        if t.writes.isEmpty then (spDone, "ok")
-        else if prop != "C04" &&
-            sp.history.any (fun h => decide (h.1 ≥ t.beginIdx) && h.2.any (fun k => t.readKeys.contains k)) then
-          -- C03: a later commit wrote a key this transaction read from its snapshot
-          -- (C04 runs do not judge conflict detection: only atomicity and versions)
-          (spDone, "conflict")
-        else
-          let errs := if sp.closed then "conflict|toobig|blocked" else "conflict|toobig"
-          if mout = .ok then
-            if sp.closed then (spDone, errs)
-            else if mts ≤ sp.maxTs then (spDone, errs ++ s!"|commit-version-must-be>{sp.maxTs}")
-            else
-              let keys := t.writes.map (·.1)
-              let sp' := { spDone with
-                cur := t.writes.foldr (fun p acc => mapSet acc p.1 p.2) sp.cur
-                history := (sp.ncommits, keys) :: sp.history
-                ncommits := sp.ncommits + 1
-                vlog := t.writes.filterMap (fun p => match p.2 with
-                                                     | some v => some (p.1, mts, v)
-                                                     | none => none) ++ sp.vlog
-                lastV := mts, maxTs := mts }
-              (sp', errs ++ "|ok")
-          else (spDone, errs ++ "|ok")
+        -- the transaction's view: its snapshot overlaid with its own writes, live keys in key order
+        let view := if t.update then t.writes.foldr (fun p acc => mapSet acc p.1 p.2) t.snap else t.snap
+        let live := view.filterMap (fun p => match p.2 with
+                                             | some v => some (p.1, v)
+                                             | none => none)
+        let sorted := live.foldr insPair []
+        let t' := if t.update then { t with readKeys := sorted.map (·.1) ++ t.readKeys } else t
+        (sPut sp id t', outStr (.scanned sorted))
+  | .reopen =>
+    -- a reopen ends every transaction; read timestamps of the old instance no longer count
+    ({ sp with closed := false, txns := [], maxTs := sp.lastV }, "ok")
   | .discard id =>
     match sGet sp id with
     | none => (sp, "notxn")
@@ -178,10 +211,27 @@ def parseOp? (toks : List String) : Option Op :=
   | ["del", id, k] => do let id ← natOf? id; let k ← bytesOf? k; pure (.set id k none)
   | ["commit", id] => do let id ← natOf? id; pure (.commit id)
   | ["commitwith", id] => do let id ← natOf? id; pure (.commit id)
+  | ["commitio", id] => do let id ← natOf? id; pure (.commitIO id)
+  | ["scan", id] => do let id ← natOf? id; pure (.scan id)
+  | ["reopen"] => some .reopen
   | ["discard", id] => do let id ← natOf? id; pure (.discard id)
   | ["close"] => some .close
   | ["versions", k] => do let k ← bytesOf? k; pure (.versions k)
   | _ => none
+
+/-- one model step + the specification's step: (new state, (model answer, spec pattern)) -/
+def one (st : DSt) (op : Op) : DSt × (String × String) :=
+  let (m', out) := step st.cfg fpOf st.m op
+  let mts := match m'.log with
+    | cm :: _ => cm.ts
+    | [] => 0
+  let (sp', spec) := specStep st.prop st.sp op out mts
+  ({ st with m := m', sp := sp' }, (outStr out, spec))
+
+/-- the spec pattern language of hlib, for composite scenario lines -/
+def SpecOk (r : String × String) : Bool :=
+  r.2 == "*" || (r.2.splitOn "|").any (fun alt =>
+    if alt.endsWith "*" then r.1.startsWith (alt.dropRight 1) else alt == r.1)
 
 def dstep (st : DSt) (toks : List String) : DSt × String :=
   match toks with
@@ -194,15 +244,31 @@ def dstep (st : DSt) (toks : List String) : DSt × String :=
     match natOf? a, natOf? b, natOf? t with
     | some a, some b, some t => ({ st with m := init a b t, sp := {} }, "ok\t*")
     | _, _, _ => (st, "bad-op")
+  | ["vlogfault", n2, tag] =>
+    -- directed scenario (harness: FaultFS): three fresh transactions 97 (inline value), 98 (100-byte
+    -- value), 99 (n2-byte value that needs a new value-log segment whose creation fails); 97 is
+    -- applied alone, 98 and 99 travel in one batch.  If 99's request reaches the write pipeline the
+    -- whole batch fails (`vlog.write` error ⇒ every request of the batch gets the error).
+    match natOf? n2, bytesOf? tag with
+    | some n2, some tag =>
+      let stallVal := List.replicate (st.m.thr + 8) (tag.headD 115)
+      let pre : List Op := [.begin 97 true, .set 97 [115, 116] (some stallVal), .begin 98 true,
+        .set 98 [116, 49] (some (List.replicate 100 99)), .begin 99 true, .set 99 [116, 50] (some (List.replicate n2 100))]
+      let st1 := pre.foldl (fun acc op => (one acc op).1) st
+      let (st2, o97) := one st1 (.commit 97)
+      let probe := one (one st2 (.commitIO 98)).1 (.commit 99)
+      let reaches := probe.1.m.log.length > (one st2 (.commitIO 98)).1.m.log.length
+      let (st3, o98) := one st2 (if reaches then .commitIO 98 else .commit 98)
+      let (st4, o99) := one st3 (if reaches then .commitIO 99 else .commit 99)
+      let model := ",".intercalate [o97.1, o98.1, o99.1]
+      let okAll := SpecOk o97 && SpecOk o98 && SpecOk o99
+      (st4, model ++ "\t" ++ (if okAll then model else "spec-rejects:" ++ o97.2 ++ "," ++ o98.2 ++ "," ++ o99.2))
+    | _, _ => (st, "bad-op")
   | _ =>
     match parseOp? toks with
     | none => (st, "bad-op")
     | some op =>
-      let (m', out) := step st.cfg fpOf st.m op
-      let mts := match m'.log with
-        | cm :: _ => cm.ts
-        | [] => 0
-      let (sp', spec) := specStep st.prop st.sp op out mts
-      ({ st with m := m', sp := sp' }, outStr out ++ "\t" ++ spec)
+      let (st', r) := one st op
+      (st', r.1 ++ "\t" ++ r.2)
 
 def main : IO Unit := Driver.loop ({} : DSt) dstep
